@@ -1,0 +1,22 @@
+//go:build verif
+// +build verif
+
+package bal_gslb
+
+import (
+	"github.com/bfenetworks/bfe/bfe_balance/bal_slb"
+)
+
+// Hooks for the out-of-tree verification harness of property C03 (build tag verif).  Add-only.
+
+// VerifC03SubRR returns the BalanceRR of the named sub-cluster (nil if absent).
+func (bal *BalanceGslb) VerifC03SubRR(name string) *bal_slb.BalanceRR {
+	bal.lock.Lock()
+	defer bal.lock.Unlock()
+	for _, s := range bal.subClusters {
+		if s.Name == name {
+			return s.backends
+		}
+	}
+	return nil
+}
